@@ -430,6 +430,9 @@ func (c *Client) Mail(from string, opts *MailOptions) error {
 		return err
 	}
 
+	// MAIL starts a new transaction: forget the recipients of the last one.
+	c.rcpts = nil
+
 	var sb strings.Builder
 	// A high enough power of 2 than 510+14+26+11+9+9+39+500
 	sb.Grow(2048)
